@@ -227,8 +227,13 @@ def _kwoargs_start(start, _kwoargs, func, *args, **kwargs):
         elif param.kind != param.POSITIONAL_ONLY:
             break # no more POKs now
     if not found:
+        # already converted by a modifier this one is stacked with
+        found = start in getattr(func, 'kwoarg_names', ())
+    if not found:
         raise ValueError('{0!r} not found in {1.__name__}{2}'.format(
             start, func, sig))
+    if not kwoarg_names:
+        return func # nothing left to convert
     return _PokTranslator(
         func, kwoargs=kwoarg_names,
         get=partial(_kwoargs_start, start, _kwoargs))
@@ -281,9 +286,14 @@ def _posoargs_end(end, _posoargs, func, *args, **kwargs):
                 found = True
         elif param.kind != param.POSITIONAL_ONLY:
             break # no more POKs now
+        elif param.name == end and end in getattr(func, 'posoarg_names', ()):
+            # already converted by a modifier this one is stacked with
+            found = True
     if not found:
         raise ValueError('{0!r} not found in {1.__name__}{2}'.format(
             end, func, sig))
+    if not posoarg_names:
+        return func # nothing left to convert
     return _PokTranslator(
         func, posoargs=posoarg_names,
         get=partial(_posoargs_end, end, _posoargs))
